@@ -8,7 +8,7 @@ from yaml.tokens import *      # noqa: F401,F403  (token classes for the stub)
 from yaml import tokens as T
 
 from .. import core, yamlapi, sigs
-from ..gen import gdoc, corpus, strings as S
+from ..gen import gdoc, corpus, strings as S, boundary
 from ..ref import tokgrammar, evgrammar
 
 ID = 'C09'
@@ -374,6 +374,11 @@ def run(spec, ctx):
     k = spec['kind']
     if k == 'inputs':
         r = random.Random(core.h64('C09', spec['seed'], spec['shard']))
+        if spec['shard'] == 0:
+            # keys exactly on the simple-key length limit (1024), in every spelling, plus multi-byte / break variants
+            for text, label in boundary.simple_key_docs():
+                check_text(text, ctx, 'limit:' + label.split(':')[0])
+                check_text(text.replace('k', chr(0xe9), 3).replace('\n', '\r\n'), ctx, 'limit:' + label.split(':')[0])
         for i in range(spec['n']):
             text, cls = gen_input(r)
             if i < 3:
